@@ -48,6 +48,8 @@ func init() {
 		mutant{"RunPending reports timeout", "io.go",
 			"\t\tif ioc.poller.Pending() <= 0 {\n\t\t\tbreak\n\t\t}\n\n\t\tif err := ioc.RunOne(); err != nil && err != sonicerrors.ErrTimeout {",
 			"\t\tif ioc.poller.Pending() <= 0 {\n\t\t\tbreak\n\t\t}\n\n\t\tif err := ioc.RunOne(); err != nil {", "C03-R4"},
+		mutant{"removing one direction programs the removed flag", "internal/poll_linux.go",
+			"\t\t*events ^= PollerReadEvent\n\t\tif *events != 0 {\n\t\t\treturn p.modify(slot.Fd, createEvent(*events, slot))", "\t\t*events ^= PollerReadEvent\n\t\tif *events != 0 {\n\t\t\treturn p.modify(slot.Fd, createEvent(PollerReadEvent, slot))", "C03-R2k"},
 		mutant{"posted handler counted after it is published", "internal/poll_linux.go",
 			"\tp.posts = append(p.posts, handler)\n\tatomic.AddInt64(&p.pending, 1)\n\tp.lck.Unlock()\n", "\tp.posts = append(p.posts, handler)\n\tp.lck.Unlock()\n\tatomic.AddInt64(&p.pending, 1)\n", "C03-R6"},
 		mutant{"Pending read without atomic", "internal/poll_linux.go", "return atomic.LoadInt64(&p.pending)", "return p.pending", "C03-R5"},
@@ -369,6 +371,51 @@ func runC03(c *Ctx) {
 	}
 
 	// ------------------------------------------------------------------------------------------------ R3
+	// the kernel is told exactly what the slot records: the mask handed to epoll_ctl(ADD/MOD) is the value of
+	// Slot.Events after the update on that path (not the flag being added or removed, not a stale copy)
+	c.rule("C03-R2k", "the event mask programmed into epoll is the slot's recorded interest mask", 3)
+	{
+		createEv := p.Fn("internal", "createEvent")
+		eventsF := p.Field("internal", "Slot", "Events")
+		n := 0
+		for _, fn := range internalFuncs {
+			for _, call := range callsToFn(fn, createEv) {
+				in := call.(ssa.Instruction)
+				n++
+				mask := stripConv(call.Common().Args[0])
+				// a load of Slot.Events (possibly through a local pointer to it) ...
+				isLoad := false
+				var ld *ssa.UnOp
+				if u, ok := mask.(*ssa.UnOp); ok && u.Op == token.MUL {
+					if fv, _ := fieldAddrOf(u.X); fv == eventsF {
+						isLoad, ld = true, u
+					}
+				}
+				// ... that happens after the last store to it that can reach this call
+				fresh := isLoad
+				if isLoad {
+					eachInstr(fn, func(x ssa.Instruction) {
+						st, ok := x.(*ssa.Store)
+						if !ok {
+							return
+						}
+						if fv, _ := fieldAddrOf(st.Addr); fv != eventsF {
+							return
+						}
+						// a store between the load and the call makes the mask stale
+						if reachesFrom(ld, st) && reachesFrom(st, in) && st.Block() != nil && !dominatesInstr(st, ld) {
+							fresh = false
+						}
+					})
+				}
+				c.check(fresh, fn, "kernel mask", in.Pos(), "epoll is programmed with the current Slot.Events", "the mask handed to epoll_ctl is not the slot's current interest mask (it is "+exprString(mask, nil, 0)+"): the kernel watches a direction the slot no longer records, or stops watching one that is still in flight - that operation's callback never runs although the descriptor is ready")
+			}
+		}
+		if n == 0 {
+			c.bad(p.Method("internal", "poller", "setRW"), "kernel mask", p.Method("internal", "poller", "setRW").Pos(), "no epoll event is built any more (anchor moved)")
+		}
+	}
+
 	c.rule("C03-R3", "Del removes the read and the write interest on every path", 1)
 	{
 		del := p.Method("internal", "poller", "Del")
